@@ -62,6 +62,37 @@ def _l1_faults(n: int, w0: int, w1: int, w2: int, w3: int, k: int, maxh: int, pr
     return _run(writes, k, maxh, prune, 1, None, t) is None
 
 
+def _l1c_after_failure(n: int, w0: int, w1: int, w2: int, w3: int, maxh: int, prune: int, t: int) -> bool:
+    """
+    pre: 2 <= n <= 4
+    pre: 0 <= w0 <= 2 and 0 <= w1 <= 2 and 0 <= w2 <= 2 and 0 <= w3 <= 2
+    pre: 1 <= maxh <= 3
+    pre: 1 <= prune <= 3
+    pre: 0 <= t <= 2
+    post: _
+    """
+    # one transient open() failure (call number t). If it strikes while nothing else is open the write legitimately raises; the
+    # caller survives it and keeps writing: every later write must either succeed or fail for a genuine open() failure again -
+    # never because of what the failed attempt left behind - and the files hold exactly the records whose write returned
+    import errno
+    writes = [w0, w1, w2, w3][:n]
+    fs = MemFS(limit=None, fail_at=t, perm_path=None)
+    _install(fs)
+    errors = []
+    hl, expected, exc, failed_at = S.run_writes(lambda: HandleLimiter(maxHandles=maxh, pruneEvery=prune), writes, 1, keep_going=True, errors=errors)
+    for i, e in errors:
+        if not isinstance(e, OSError):
+            return False                       # e.g. KeyError: not an open() failure
+    if len(errors) > 1:
+        return False                           # a single transient failure can make at most one write fail
+    if errors and (not fs.failed_with_others_open or fs.failed_with_others_open[-1] != 0):
+        return False
+    for p in S.PATHS:
+        if fs.content(p) != expected.get(p, ''):
+            return False
+    return fs.open_count == 0
+
+
 class _Rec:
     def __init__(self, text, tags):
         self.text, self.tags = text, tags
@@ -184,6 +215,8 @@ LEMMAS = [
     dict(name='L1_faults', fn='_l1_faults', engine='E1', timeout=_T, replay='replay.C19:replay',
          cases={'quick': [dict(id='n%d_%s' % (n, 'tr' if tr else 'perm'), pre=['n == %d' % n, 'transient == %s' % tr]) for n in (2, 3) for tr in (True, False)],
                 'thorough': [dict(id='n%d_%s' % (n, 'tr' if tr else 'perm'), pre=['n == %d' % n, 'transient == %s' % tr]) for n in (1, 2, 3, 4) for tr in (True, False)]}),
+    dict(name='L1c_writes_after_a_failed_open', fn='_l1c_after_failure', engine='E1', timeout=_T, replay='replay.C19:replay_after_failure',
+         cases={'quick': [dict(id='n%d' % k, pre=['n == %d' % k] + ['w%d == 0' % i for i in range(k, 4)]) for k in (2, 3, 4)]}),
     dict(name='L3_bam_split_by_tag', fn='_l3_bam_split', engine='E1', timeout=_T, replay='replay.C19:replay_split',
          cases={'quick': [dict(id='n%d' % n, pre=['n == %d' % n] + ['t%d == 0' % i for i in range(n, 5)]) for n in (1, 2, 3)] + [dict(id='n4_h%d' % h, pre=['n == 4', 'maxh == %d' % h, 't4 == 0']) for h in (1, 2, 3)],
                 'thorough': [dict(id='n%d_h%d' % (n, h), pre=['n == %d' % n, 'maxh == %d' % h] + ['t%d == 0' % i for i in range(n, 5)]) for n in (1, 2, 3, 4, 5) for h in (1, 2, 3)]}),
@@ -195,7 +228,7 @@ PROPERTY = dict(
                'singlecellmultiomics.fastqProcessing.fastqHandle.FastqHandle.__init__/write/close (single_cell=True)',
                'singlecellmultiomics.bamProcessing.bamSplitByTag.split_bam_by_tag + the multi-pass driver loop of its __main__ block (AST cut)'],
     bounds={'quick': dict(writes='<=4 over 3 paths', descriptor_limit_k='1..3', maxHandles='1..3', pruneEvery='1..3',
-                          faults='EMFILE above k; one transient failure at open call 0..2; one permanently failing path'),
+                          faults='EMFILE above k; one transient failure at open call 0..2 (also with the caller continuing after the error); one permanently failing path'),
             'thorough': dict(writes='<=5 over 3 paths', descriptor_limit_k='1..3 (faults: 2..4)', maxHandles='1..3', pruneEvery='1..3')},
     outside=['validity of concatenated gzip members (zlib; exercised by the replay on the real file system)',
              'bamSplitByTag: real BAM encoding / indexing (replay only), -head, tag values that need file-name cleaning', 'more than 3 distinct target files'],
